@@ -105,7 +105,20 @@ const fn min(a: usize, b: usize) -> usize { if a < b { a } else { b } }
 const P_MAX: usize = max(max(max(prec(PD::<DefaultUniformModel>), qprec(PD::<DefaultLeakyQuantizer<f64, i32>>)), max(prec(PD::<DefaultContiguousCategoricalEntropyModel>), prec(PD::<DefaultLazyContiguousCategoricalEntropyModel>))), max(prec(PD::<DefaultNonContiguousCategoricalEncoderModel<i32>>), prec(PD::<DefaultNonContiguousCategoricalDecoderModel<i32>>)));
 const SPARE: usize = min(ans(PD::<DefaultAnsCoder>), renc(PD::<DefaultRangeEncoder>)) - P_MAX;'''
 
+_PRESET_SETUP = '''use constriction::BitArray; use core::marker::PhantomData as PD; use num_traits::AsPrimitive;
+const fn ans<W: BitArray + Into<S>, S: BitArray + AsPrimitive<W>, B>(_: PD<AnsCoder<W, S, B>>) -> (usize, usize) { (W::BITS, S::BITS) }
+const fn renc<W: BitArray + Into<S>, S: BitArray + AsPrimitive<W>, B: constriction::backends::WriteWords<W>>(_: PD<RangeEncoder<W, S, B>>) -> (usize, usize) { (W::BITS, S::BITS) }
+const fn rdec<W: BitArray + Into<S>, S: BitArray + AsPrimitive<W>, B: constriction::backends::ReadWords<W, constriction::Queue>>(_: PD<RangeDecoder<W, S, B>>) -> (usize, usize) { (W::BITS, S::BITS) }
+const fn chain<W: BitArray + Into<S>, S: BitArray + AsPrimitive<W>, C, R, const P: usize>(_: PD<ChainCoder<W, S, C, R, P>>) -> (usize, usize, usize) { (W::BITS, S::BITS, P) }
+const fn eq2(a: (usize, usize), w: usize, s: usize) -> bool { a.0 == w && a.1 == s }
+const DEFAULTS: bool = eq2(ans(PD::<DefaultAnsCoder>), 32, 64) && eq2(renc(PD::<DefaultRangeEncoder>), 32, 64) && eq2(rdec(PD::<DefaultRangeDecoder>), 32, 64) && { let c = chain(PD::<DefaultChainCoder>); c.0 == 32 && c.1 == 64 && c.2 == 24 };
+const SMALL_W: bool = ans(PD::<SmallAnsCoder>).0 == 16 && renc(PD::<SmallRangeEncoder>).0 == 16 && rdec(PD::<SmallRangeDecoder<constriction::backends::Cursor<u16, Vec<u16>>>>).0 == 16 && chain(PD::<SmallChainCoder>).0 == 16 && chain(PD::<SmallChainCoder>).2 == 12;
+const SMALL_S: usize = { let a = ans(PD::<SmallAnsCoder>).1; let b = renc(PD::<SmallRangeEncoder>).1; let c = rdec(PD::<SmallRangeDecoder<constriction::backends::Cursor<u16, Vec<u16>>>>).1; let d = chain(PD::<SmallChainCoder>).1; if a == b && b == c && c == d { a } else { 0 } };'''
+
 A = [
+    ('c06_preset_format_parameters', ['C06'], 'E0080',
+     'the documented presets keep their format parameters: Default* coders are (Word, State) = (u32, u64), Small* coders (u16, u32), the chain coder presets use PRECISION 24 / 12 - a stream written with a preset is readable by the explicitly parameterised coder of the documentation and by other versions',
+     _PRESET_SETUP, 'const _: () = assert!(DEFAULTS && SMALL_W && SMALL_S == 64);', 'const _: () = assert!(DEFAULTS && SMALL_W && SMALL_S == 32);', 'const _: () = assert!(SMALL_S <= 128);'),
     ('c12_default_presets_spare_bits', ['C12'], 'E0080',
      'with the default presets State::BITS - Word::BITS - PRECISION >= 8 for every default coder/model pair, i.e. the per-symbol term log2(1 + 2^-(S-W-P)) stays below 0.006 bit',
      _SPARE_SETUP, 'const _: () = assert!(SPARE >= 9);', 'const _: () = assert!(SPARE >= 8);', 'const _: () = assert!(SPARE + 1 >= 1);'),
